@@ -7,7 +7,7 @@
      - glob as a table pattern -> matches recorded from the real glob.glob;
      - the body of the `with` block as data: the dict it left behind (printed), or "raised".
    [check_case] evaluates the model on one scenario and compares with what the real Editor did.  *)
-From AB Require Import Prelude Editor.
+From AB Require Import Prelude Editor EditorProofs.
 
 Definition SL : Z := 47.   (* '/' *)
 Definition DOT : Z := 46.  (* '.' *)
@@ -94,9 +94,26 @@ Fixpoint px_escape (s : str) : str :=
   | c :: r => if (c =? 42) || (c =? 63) || (c =? 91) then 91 :: c :: 93 :: px_escape r else c :: px_escape r
   end.
 
-(* os.path.abspath with the given cwd *)
+(* os.path.abspath with the given cwd; "//x" is the same file as "/x" (Linux) although normpath keeps it *)
+Definition one_slash (s : str) : str :=
+  match s with a :: b :: r => if (a =? SL) && (b =? SL) then b :: r else s | _ => s end.
 Definition px_canon (cwd : str) (p : str) : str :=
-  if starts_sl p then px_normpath p else px_normpath (px_join cwd p).
+  one_slash (if starts_sl p then px_normpath p else px_normpath (px_join cwd p)).
+
+(* the directories walked through while resolving p: every component but the last, in order; "" and "."
+   stay, ".." goes to the parent, a name goes down *)
+Fixpoint walk (cur : str) (comps : list str) : list str :=
+  match comps with
+  | [] | [_] => []
+  | c :: r =>
+    let nxt := if is_empty c || is_dot c then cur
+               else if is_dotdot c then (match px_dirname cur with [] => cur | d => d end)
+               else (if ends_sl cur then cur ++ c else cur ++ SL :: c) in
+    nxt :: walk nxt r
+  end.
+Definition px_prefixes (cwd : str) (p : str) : list str :=
+  let start := if starts_sl p then [SL] else cwd in
+  start :: walk start (split_sl p []).
 
 (* ---- one scenario ---------------------------------------------------------------------------- *)
 Record ecase := mkcase {
@@ -126,7 +143,7 @@ Definition world_of (c : ecase) : world :=
           (* the table is keyed by the normalised pattern and holds normalised matches: spelling a
              pattern "./x" or "x" is the same question to glob, and matches are normalised by the code *)
           (fun pat => match lookup (px_normpath pat) (c_globs c) with Some l => l | None => [] end)
-          px_normpath px_dirname px_join px_ppath (px_canon (c_cwd c)) px_escape
+          px_normpath px_dirname px_join px_ppath (px_canon (c_cwd c)) (px_prefixes (c_cwd c)) px_escape
           (c_translate c) (c_guard c) (c_escape c).
 
 Definition exn_code (e : eexn) : Z :=
@@ -159,7 +176,9 @@ Definition check_paths (c : ecase) : bool :=
                     && str_eqb (px_ppath p) pp && str_eqb (px_canon (c_cwd c) p) ab
                     && str_eqb (px_escape p) es) (o_paths c).
 
-Definition fuel_of (c : ecase) : nat := S (S (length (c_files c))).
+(* one unit of fuel per key; a key is the root or the normpath of a glob match (two spellings of one file
+   are two keys), so the number of recorded matches bounds it *)
+Definition fuel_of (c : ecase) : nat := S (S (length (flat_map snd (c_globs c)))).
 
 Definition run_case (c : ecase) : fsys * list op * eres unit * option (list path) :=
   let W := world_of c in
@@ -205,7 +224,7 @@ Definition ex_case (translate guard : bool) : ecase :=
   let tm := zs "A" ++ (if translate then [NL] else CRLF) in
   mkcase translate guard true (zs "/t")
          [(zs "/t/m", zs "A" ++ CRLF); (zs "/t/a", zs "B" ++ [NL]); (zs "/t/b", zs "C" ++ [NL])]
-         [zs "/t"]
+         [zs "/t"; zs "/"]
          [(tm, [zs "a"; zs "b"; zs "m"]); (zs "B" ++ [NL], [zs "b"])]
          []
          [(zs "a", [zs "a"]); (zs "b", [zs "b"]); (zs "m", [zs "m"])]
@@ -242,3 +261,37 @@ Definition ex_body3 : body_t (ex_W false true) :=
 Definition ex_files3' : list (path * model (ex_W false true)) :=
   match ex_body3 (ex_files false true) with Some x => x | None => [] end.
 Definition ex_out3 := edit_file_recursive (ex_W false true) ex_fuel ex_fs ex_root ex_body3.
+
+(* ---- the hypotheses of the C16 theorems, as booleans evaluated on every scenario of a run ----------
+   alias_free: the removed and the kept keys denote pairwise distinct files (needed by C16_completed_calls_exactly
+   and its corollaries); kept_distinct: the kept keys do (enough for C16_rekeyed_entry_survives).
+   [false] also when the block did not complete.  Soundness of nodupb: EditorProofs.nodupb_sound. *)
+Definition case_texts (c : ecase) : list (path * str) :=
+  match entered (world_of c) (fuel_of c) (mkfs (c_files c) (c_dirs c)) (c_root c) with
+  | EOk (t, _) => t | EErr _ => [] end.
+Definition completed_rec (c : ecase) : bool :=
+  (c_mode c =? 1) && (o_res c =? 0) && (match c_body c with Some _ => true | None => false end).
+Definition hyp_alias_free (c : ecase) : bool :=
+  let W := world_of c in
+  completed_rec c &&
+  match c_body c with
+  | Some f' => nodupb (map (canon W) (removed_keys W (case_texts c) (f' : list (path * model W)) ++ keys f'))
+  | None => false
+  end.
+Definition hyp_kept_distinct (c : ecase) : bool :=
+  let W := world_of c in
+  completed_rec c && match c_body c with Some f' => nodupb (map (canon W) (keys f')) | None => false end.
+(* the keys the read phase produced denote pairwise distinct files (the reading of "exactly once" per FILE) *)
+Definition hyp_read_keys_distinct (c : ecase) : bool :=
+  nodupb (map (canon (world_of c)) (keys (case_texts c))).
+
+(* the same file under two spellings: m includes "a" and "/t/a" *)
+Definition ex_caseA : ecase :=
+  mkcase false true true (zs "/t")
+         [(zs "/t/m", zs "A" ++ [NL]); (zs "/t/a", zs "B" ++ [NL])]
+         [zs "/t"; zs "/"]
+         [(zs "A" ++ [NL], [zs "a"; zs "/t/a"])] []
+         [(zs "a", [zs "a"]); (zs "/t/a", [zs "/t/a"])]
+         1 (zs "m") None 0 None [] [] [].
+Definition ex_WA : world := world_of ex_caseA.
+Definition ex_bfsA := bfs ex_WA 4 (mkfs (c_files ex_caseA) (c_dirs ex_caseA)) [normpath ex_WA (zs "m")] [] [].
